@@ -46,6 +46,16 @@ def run(model, rep, tier):
                     rep.check("self._track_size()" in w, "R-08.1", f.qualname, where(f, e), "write inside `with self._track_size()`",
                               f"`{src(e)[:50]}` grows the message outside `with self._track_size()`: the size limit is not enforced for it", stmt=stmt_key(n.ast))
     rep.floor("R-08.1", n_w, 9)
+    # the section is advanced BEFORE the tracked write, so that Renderer.section names the section being attempted when TooBig is raised
+    for mname in ("add_question", "add_rrset", "add_rdataset", "_write_tsig"):
+        f = ren.methods.get(mname)
+        if f is None:
+            continue
+        cfgs = CFG(f.node, implicit_exc=False)
+        ss = [n.id for (n, c) in calls_with_nodes(cfgs) if src(c.func) == "self._set_section"]
+        ws = [n for n in cfgs.nodes if isinstance(n.ast, ast.With) and any(src(i.context_expr) == "self._track_size()" for i in n.ast.items)]
+        rep.check(bool(ss) and bool(ws) and all(cfgs.dominated_by_set(w.id, ss) for w in ws), "R-08.3", f.qualname, where(f, f.node), "_set_section() precedes the size-tracked write",
+                  "the section is not advanced before the tracked write: on TooBig `r.section` still names the previous section and TC is decided wrongly", stmt="section-before-write")
     # back-patches write exactly the region they seek to
     ts = model.func(f"{REN}._temporarily_seek_to")
     t = " ".join(src(ts.node).split())
@@ -192,4 +202,7 @@ WITNESSES = [
     {"id": "c08-twin-ge-flipped", "rule": "R-08.2", "file": "dns/renderer.py", "expect": "silent", "old": "            if v >= where:", "new": "            if where <= v:"},
     {"id": "c08-pad-full-block", "rule": "R-08.4", "file": "dns/renderer.py", "expect": "fires",
      "old": "            if remainder:\n                pad = b\"\\x00\" * (pad - remainder)\n            else:\n                pad = b\"\"", "new": "            pad = b\"\\x00\" * (pad - remainder)"},
+    {"id": "c08-section-after-write", "rule": "R-08.3", "file": "dns/renderer.py", "expect": "fires",
+     "old": "        self._set_section(section)\n        with self._track_size():\n            n = rrset.to_wire(self.output, self.compress, self.origin, **kw)\n        self.counts[section] += n",
+     "new": "        with self._track_size():\n            n = rrset.to_wire(self.output, self.compress, self.origin, **kw)\n        self._set_section(section)\n        self.counts[section] += n"},
 ]
